@@ -23,14 +23,16 @@ pub use vyp_types::*;
 pub use gt_types::*;
 pub use gt_types_impl::*;
 
-pub fn parse_systems(doc: &roxmltree::Document) -> (Vec<String>, Vec<VypSystem>) {
-    let (factores_correccion_sistemas, sistemas) = vyp_sys::parse_systems(doc);
-    let gt_systems = gt_sys::parse_systems(doc);
+pub fn parse_systems(
+    doc: &roxmltree::Document,
+) -> Result<(Vec<String>, Vec<VypSystem>), anyhow::Error> {
+    let (factores_correccion_sistemas, sistemas) = vyp_sys::parse_systems(doc)?;
+    let gt_systems = gt_sys::parse_systems(doc)?;
     // let horarios = todo!();
 
     log::debug!("Sistemas  GT:\n{:#?}", gt_systems);
     log::debug!("Sistemas VyP:\n{:#?}", sistemas);
 
     // TODO: completar sistemas GT
-    (factores_correccion_sistemas, sistemas)
+    Ok((factores_correccion_sistemas, sistemas))
 }
